@@ -108,6 +108,20 @@ def check_formatter(r, repo: Repo, qual: str, obj: str, categories: list[str], v
                         f"{qual.split('.')[-1]} has no loop that writes the elements of {obj}.{cat}", repo.loc(fn))
             continue
         for loop in loops:
+            # a re-keyed intermediate collection can collapse entries: {path: lic for lic, files in X.items() for path in files}
+            # keeps ONE identifier per path - every (identifier, file) pair must reach the output
+            for nm in {n.id for n in ast.walk(loop.iter) if isinstance(n, ast.Name) and n.id in defs}:
+                dv = defs[nm]
+                if isinstance(dv, ast.Call) and ast.unparse(dv.func) in ("dict", "sorted", "list") and dv.args:
+                    dv = dv.args[0]
+                if isinstance(dv, ast.DictComp) and cat in _expand(dv, defs, obj):
+                    all_vars = {n.id for g in dv.generators for n in ast.walk(g.target) if isinstance(n, ast.Name)}
+                    key_vars = {n.id for n in ast.walk(dv.key) if isinstance(n, ast.Name)}
+                    if not all_vars <= key_vars:
+                        r.violation(qual, f"section {cat} is rendered from a re-keyed dictionary ({nm})",
+                                    f"`{nm} = {ast.unparse(dv)[:90]}` is keyed by {sorted(key_vars)} only: entries that share the key"
+                                    f" collapse, so some (identifier, file) pairs of {obj}.{cat} never reach this format while the"
+                                    f" other formats list them", repo.loc(loop))
             for test, in_body in _guards(loop, fn):
                 def atom(text, node):
                     m = re.fullmatch(rf"{obj}\.(\w+)", text)
